@@ -202,15 +202,27 @@ pub fn run(ctx: &mut Ctx) {
     let pairs_limit = if ctx.quick() { 1 << 10 } else { 1 << 12 };
     let mut item = 0;
     // biggest first for balance
+    let guarded = |ctx: &mut Ctx, what: String, f: &dyn Fn(&mut Ctx)| {
+        let r = std::panic::catch_unwind(std::panic::AssertUnwindSafe(|| f(ctx)));
+        if r.is_err() {
+            let (loc, msg, lib) = crate::engine::take_panic();
+            if lib {
+                ctx.violation(format!("panic|{loc}"), format!("tree math panicked for {what}: {msg}"));
+            } else {
+                crate::engine::machinery(&format!("harness panic at {loc}: {msg}"));
+            }
+        }
+        ctx.report.traces += 1;
+    };
     for k in (0..=12u32).rev() {
         if ctx.mine(item) {
-            check_size(1 << k, pairs_limit, ctx);
+            guarded(ctx, format!("2^{k} leaves"), &|ctx| check_size(1 << k, pairs_limit, ctx));
         }
         item += 1;
     }
     for k in 13..=24u32 {
         if ctx.mine(item) {
-            check_large(k, ctx);
+            guarded(ctx, format!("2^{k} leaves"), &|ctx| check_large(k, ctx));
         }
         item += 1;
     }
